@@ -592,3 +592,65 @@ def run_extra(ctx):
                 ctx.bad(R, "%s|reported-error-exits-0|%s" % (inst["fn"], re.sub(r"[^A-Za-z]+", "-", txt.strip())[:30]), "%s:%d" % (f.file, c.get("ln") or 0),
                         "after printing `%s` the function can still return Ok(())" % txt.strip()[:60],
                         "the command tells the user about an error and exits 0: scripts and CI treat the file as valid")
+
+    # a finding that applies to width and height alike is raised when either of them offends: in validate functions, an error-raising
+    # `if` whose condition is the same predicate on `width` and on `height` joins the two with `||`
+    R_sym = ctx.rule("C20.per-dimension-findings-fire-for-either-dimension", "in validate functions: every error-raising `if P(width) <op> P(height)` (the same predicate on both dimensions) is true when exactly one of the two holds", floor=1)
+    for f in cli.fn_list:
+        if f.kind == "Closure" or not f.hir or "::commands::" not in f.path or not re.search(r"validate", f.path.split("::")[-1]):
+            continue
+        for g in hirq.find(f.hir["body"], "if"):
+            c = hirq.strip(g["c"])
+            if c.get("k") != "bin" or c["op"] not in ("&&", "||"):
+                continue
+            l_, r_ = hirq.render(c["l"]), hirq.render(c["r"])
+            if not (("width" in l_ and "height" in r_ and l_.replace("width", "height") == r_) or ("height" in l_ and "width" in r_ and l_.replace("height", "width") == r_)):
+                continue
+            then_txt = hirq.render(g["then"])
+            raises = bool(re.search(r"errors?\.push|bail|Err\(", then_txt)) or any(x.get("k") == "ret" for x in hirq.walk(g["then"]))
+            if not raises:
+                continue
+            ctx.saw_fn(f)
+            inst = {"fn": f.path.split("commands::")[-1], "cond": hirq.render(c)[:80]}
+            if c["op"] == "||":
+                ctx.ok(R_sym, inst)
+            else:
+                ctx.bad(R_sym, "%s|both-dimensions-required|%s" % (inst["fn"], re.sub(r"[^a-z%0-9]+", "", l_)[:24]), "%s:%d" % (f.file, g.get("ln") or 0), "`%s` raises the finding only when *both* dimensions offend" % inst["cond"],
+                        "a file that violates the rule in one dimension only (6x8, 8x6) is reported as valid and the command exits 0")
+
+    # `--patch` archives override the base archive, later ones override earlier ones: in every CLI function that builds a PatchChain,
+    # the priority given to the i-th patch (evaluated for i = 0..=8) is strictly above the base archive's and strictly increasing —
+    # PatchChain resolves ties in favour of the archive added first, i.e. of the base
+    from .c10 import _ival as _iv2, _NoEval as _NE2
+    R_pri = ctx.rule("C20.patch-priorities-rank-above-the-base", "in every commands/mpq.rs function that calls PatchChain::add_archive in a loop: priority(i) > base priority and priority(i+1) > priority(i) for i in 0..=8", floor=2)
+    for f in cli.fn_list:
+        if f.kind == "Closure" or not f.hir or "::commands::mpq::" not in f.path:
+            continue
+        body = f.hir["body"]
+        adds = [c for c in hirq.walk(body) if c.get("k") == "mcall" and c["m"] == "add_archive" and len(c.get("args") or []) == 2]
+        if len(adds) < 2:
+            continue
+        lets = {l["pat"]["name"]: l["init"] for l in hirq.find(body, "let") if l["pat"].get("k") == "bind" and l.get("init") is not None}
+        in_loop = []
+        for lp in hirq.find(body, "for"):
+            ivars = hirq.pat_binds(lp["pat"])
+            for c in adds:
+                if any(x is c for x in hirq.walk(lp["body"])) and "enumerate()" in hirq.render(lp["iter"]) and ivars:
+                    in_loop.append((c, ivars[0], {l["pat"]["name"]: l["init"] for l in hirq.find(lp["body"], "let") if l["pat"].get("k") == "bind" and l.get("init") is not None}))
+        base = [c for c in adds if not any(c is x for x, _i, _l in in_loop)]
+        if not in_loop or not base:
+            continue
+        ctx.saw_fn(f)
+        try:
+            b0 = max(_iv2(c["args"][1], {"__ty__": cli.ty}, lets) for c in base)
+            c, iv, ll = in_loop[0]
+            pr = [_iv2(c["args"][1], {iv: i, "__ty__": cli.ty}, dict(lets, **ll)) for i in range(0, 10)]
+        except _NE2 as e:
+            ctx.bad(R_pri, "%s|not-evaluable" % f.path.split("::")[-1], f.where, "priorities not evaluable: %s" % e, "shape changed")
+            continue
+        inst = {"fn": f.path.split("commands::")[-1], "base": b0, "patch_priorities": pr[:4]}
+        if pr[0] > b0 and all(b > a for a, b in zip(pr, pr[1:])):
+            ctx.ok(R_pri, inst)
+        else:
+            ctx.bad(R_pri, "%s|patch-priority" % f.path.split("::")[-1], "%s:%d" % (f.file, c.get("ln") or 0), "the base archive is added with priority %d, the patches with %s" % (b0, pr[:4]),
+                    "a patch whose priority does not exceed the base's loses every file both hold (ties go to the archive added first): the command extracts un-patched content, reports success and exits 0")
